@@ -1,11 +1,11 @@
 SPECIFICATION TableSpec
 CONSTANTS
  BNErrs = {"bnval", "bnptr"}
- Variant = "count_dups"
- MCTypes = {"attester"}
- MCMain = "attester"
- MCIncl = {"proposer"}
- MCPKs = {"a", "b"}
+ Variant = "coded"
+ MCTypes = {"aggregator", "prepare_aggregator", "attester"}
+ MCMain = "aggregator"
+ MCIncl = {"proposer", "attester", "aggregator"}
+ MCPKs = {"a"}
  MCErrs = {"nil", "other"}
  MCRoots = {"x", "y"}
  MCN = 2
